@@ -5,6 +5,7 @@ import (
 	"flag"
 	"fmt"
 	"os"
+	"runtime/debug"
 	"syscall"
 	"time"
 
@@ -56,6 +57,12 @@ func main() {
 	fs.Parse(os.Args[2:])
 
 	proto := muteStdout()
+	// Every evaluation runs under a VM step budget, which bounds script-level recursion far below this limit
+	// (<= 2e5..5e5 steps, a few hundred bytes of Go stack per step at most). Recursion that still exhausts the
+	// stack is therefore recursion inside the library that executes no VM step (e.g. walking a value that
+	// contains itself); the smaller limit makes that fatal error arrive in seconds instead of half a minute.
+	debug.SetMaxStack(512 << 20)
+	kernel.Warmup()
 
 	switch cmd {
 	case "plan":
